@@ -103,21 +103,23 @@ QueryClause(e, x) ==
   ELSE "ok"
 
 \* ---- the objects afterwards -------------------------------------------------------------------
+\* (a difference in a component the operation has nothing to do with is reported under "any:",
+\* so that one defect of a pure query - rows() is called by every observation - has one signature)
 ObsClause(s, s2, e) ==
   LET want == WObs(C, s2, Tr.qcols)
       o == e.o
       who == IF e.k \in {"render", "pack"} THEN e.k \o ":" \o SzMode(e) ELSE e.k
+      By(related) == IF e.k \in related THEN who ELSE "any"
   IN
   IF o.isz # want.isz THEN
-       (IF e.k = "setsize" THEN "setsize:image-size-setting"
-        ELSE IF o.isz = s.isz THEN who \o ":image-size-setting-not-updated"
-        ELSE who \o ":image-size-setting")
-  ELSE IF o.has # want.has THEN who \o ":widget-table"
-  ELSE IF o.rows # want.rows THEN who \o ":rows-table"
-  ELSE IF o.cache # want.cache THEN who \o ":canvas-cache"
+       (IF e.k = "render" /\ o.isz = s.isz THEN who \o ":image-size-setting-not-updated"
+        ELSE By({"render", "setsize", "rows", "pack"}) \o ":image-size-setting")
+  ELSE IF o.has # want.has THEN By({"new", "drop"}) \o ":widget-table"
+  ELSE IF o.rows # want.rows THEN "any:rows-table"
+  ELSE IF o.cache # want.cache THEN By({"render", "inval", "release", "drop", "new"}) \o ":canvas-cache"
   ELSE IF o.ph # want.ph THEN
-       (IF e.k = "setph" THEN "setph:" \o ClsName(e.w) \o ":effective-placeholder" ELSE who \o ":effective-placeholder")
-  ELSE IF o.img # want.img THEN who \o ":image-property"
+       (IF e.k = "setph" THEN "setph:" \o ClsName(e.w) \o ":effective-placeholder" ELSE "any:effective-placeholder")
+  ELSE IF o.img # want.img THEN "any:image-property"
   ELSE "ok"
 
 First(cs) ==
